@@ -1,7 +1,9 @@
 """Run plan of one property for vf.py (which harness, which sanitizer variants, budgets)."""
 from checks_common import three
 
-_main = three("c06_memres", [], scales=(0.5, 1.0, 2.0), mode="all")
+# TSan is only interesting for the concurrent histories (per-thread resource hand-off).
+_main = (three("c06_memres", [], scales=(1.0, 0, 0), mode="shared") +
+         three("c06_memres", [], scales=(0, 1.0, 2.0), mode="all"))
 # The probes run in their own processes: what they find on the unchanged tree (known
 # findings C06-*) must not mask the histories of the main runs.
 _probes = [{"harness": "c06_memres", "variant": v, "scale": 1.0, "args": [], "mode": "probes"} for v in ("asan", "plain")]
@@ -17,7 +19,7 @@ CHECK = {
                    "2-3 pages; alignment 1 .. 4 x page) through every entry point (direct, virtual, std::pmr, templated "
                    "alignment), register_destructor / get_destroy_task, contains, release, destruction, move-assignment and "
                    "move-construction on ExclusiveMonotonicBufferResource (page sizes 128/256/512/4096, two resources per "
-                   "history) and on SharedMonotonicBufferResource / SwissMemoryResource with 2-10 chains of threads that "
+                   "history) and on SharedMonotonicBufferResource / SwissMemoryResource with 2-8 chains of threads that "
                    "spawn their successor and die (thread-id and per-thread-resource re-use). A recording page allocator "
                    "and a recording upstream hand out real memory and reject double / foreign frees and wrong (bytes, "
                    "alignment). At every quiescent point: alignment, containment in a live page or live oversize block, "
